@@ -2,10 +2,19 @@ import AlgoVerif.Model.C19X
 /-!
 Line-protocol component for C19.
 
-header: `comp=<input|stream|wild|position> src=x<hex> n=<buffer size> reader=<full|one|half|dataeof|chunks:tok,tok,…>
-file=x<hex of the filename given to New>` (absent = empty file name)
-with `tok` = (`h` | cap)(`e` | `x`)? or `E` (after the script: `io.EOF` together with the last bytes).
-ops: `new`, `next`, `retract`, `lexeme`, `skip`; every output line carries the dump of the internal state; a
+header: `comp=<input|stream|wild|position> src=<seg>+<seg>+… n=<buffer size>
+reader=<full|one|half|dataeof|chunks:tok,tok,…|cycle:tok,tok,…> file=x<hex of the filename given to New>`
+(absent = empty file name) `dump=sum` (optional)
+with `seg` = `x<hex>` | `<count>*x<hex>` (the bytes repeated `count` times; large sources stay short in the header),
+`tok` = (`h` | cap)(`e` | `x` | `w` | `c`)? or `E` (after the script: `io.EOF` together with the last bytes) or
+`<count>*tok`; `x`, `w` (an error wrapping `io.EOF`) and `c` (an error of a custom type) are all `Flag.ioerr`: the code
+compares the error with `io.EOF` by `==` and nothing else.  `cycle:` is the token list repeated (source length + 2)
+times.  `dump=sum`: the buffer is printed as `buf=h<FNV-1a 64 of its bytes>` and a lexeme as `l<length>:h<FNV-1a 64>`
+and each of the two stacks as `n<length>:h<hash of its values>` (buffers of 2·65536 bytes on thousands of lines).  `n=0` is admitted for `comp=wild` only.
+ops: `new`, `next`, `retract`, `lexeme`, `skip`, and `nexts <k>` = `Next` called until it has returned `k` runes or
+something that is not a rune (printed: how many runes, the FNV-style hash of their code points, the result that
+ended the batch or `-`), `reset` = the `Input` is dropped and the next `new` makes another one over the same
+source with the same reader from its start (many call sequences in one case); every output line carries the dump of the internal state; a
 position that comes back (from `Lexeme`, `Skip`, inside the `*InputError` of `Next`) is printed field by field and
 then, quoted, as the caller sees it: `Position.String()` resp. the `Error()` text of the `*InputError`.
 State-independent ops on explicit values (strings as `x<hex>`):
@@ -34,7 +43,52 @@ def hexChar (n : Nat) : Char :=
 def showHex (bs : List UInt8) : String :=
   String.ofList (bs.flatMap fun b => [hexChar (b.toNat / 16), hexChar (b.toNat % 16)])
 
-def parseTok (tok : String) : Option (Sum Answer Unit) :=
+/-- tail-recursive hex parser into an array (sources of several 10^5 bytes) -/
+def parseHexAcc : List Char → Array UInt8 → Option (Array UInt8)
+  | [], acc => some acc
+  | a :: b :: rest, acc =>
+    match hexDigit a, hexDigit b with
+    | some x, some y => parseHexAcc rest (acc.push (UInt8.ofNat (16 * x + y)))
+    | _, _ => none
+  | _, _ => none
+
+def repeatInto (acc : Array UInt8) (bs : Array UInt8) : Nat → Array UInt8
+  | 0 => acc
+  | k + 1 => repeatInto (acc ++ bs) bs k
+
+/-- one segment of a source: `x<hex>` or `<count>*x<hex>`, appended to `acc` -/
+def parseSeg (acc : Array UInt8) (seg : String) : Option (Array UInt8) :=
+  let one (w : String) : Option (Array UInt8) :=
+    match w.toList with
+    | 'x' :: hex => parseHexAcc hex #[]
+    | _ => none
+  match seg.splitOn "*" with
+  | [w] => (one w).map (acc ++ ·)
+  | [c, w] =>
+    match c.toNat?, one w with
+    | some k, some bs => some (repeatInto acc bs k)
+    | _, _ => none
+  | _ => none
+
+/-- `src=<seg>+<seg>+…` -/
+def parseSrc (spec : String) : Option (List UInt8) :=
+  ((spec.splitOn "+").foldl (init := some #[]) fun acc seg =>
+    match acc with
+    | some a => parseSeg a seg
+    | none => none).map Array.toList
+
+/-! FNV-1a (64 bit) of a byte sequence; the same fold over code points for `nexts` -/
+def fnvInit : UInt64 := 0xcbf29ce484222325
+def fnvPrime : UInt64 := 0x100000001b3
+def fnvStep (h : UInt64) (b : UInt8) : UInt64 := (h ^^^ b.toUInt64) * fnvPrime
+def fnvNat (h : UInt64) (r : Nat) : UInt64 := (h ^^^ r.toUInt64) * fnvPrime
+def fnvArray (a : Array UInt8) : UInt64 := a.foldl fnvStep fnvInit
+def fnvList (l : List UInt8) : UInt64 := l.foldl fnvStep fnvInit
+
+def hex64 (v : UInt64) : String :=
+  String.ofList ((List.range 16).map fun i => hexChar ((v >>> (UInt64.ofNat (4 * (15 - i)))).toNat % 16))
+
+def parseTok1 (tok : String) : Option (Sum Answer Unit) :=
   if tok = "E" then some (.inr ())
   else
     let cs := tok.toList
@@ -42,12 +96,46 @@ def parseTok (tok : String) : Option (Sum Answer Unit) :=
       match cs.reverse with
       | 'e' :: r => (r.reverse, .eofWithData)
       | 'x' :: r => (r.reverse, .ioerr)
+      | 'w' :: r => (r.reverse, .ioerr)
+      | 'c' :: r => (r.reverse, .ioerr)
       | _ => (cs, .none)
     if body = ['h'] then some (.inl { half := true, cap := 0, flag := flag })
     else
       match (String.ofList body).toNat? with
       | some v => some (.inl { half := false, cap := v, flag := flag })
       | none => none
+
+/-- a token, or `<count>*<token>`: the answers it stands for (`none` = malformed), `E` = `.inr ()` -/
+def parseTok (tok : String) : Option (Sum (Nat × Answer) Unit) :=
+  match tok.splitOn "*" with
+  | [t] =>
+    match parseTok1 t with
+    | some (.inl a) => some (.inl (1, a))
+    | some (.inr ()) => some (.inr ())
+    | none => none
+  | [c, t] =>
+    match c.toNat?, parseTok1 t with
+    | some k, some (.inl a) => some (.inl (k, a))
+    | _, _ => none
+  | _ => none
+
+def pushN (acc : Array Answer) (a : Answer) : Nat → Array Answer
+  | 0 => acc
+  | k + 1 => pushN (acc.push a) a k
+
+/-- the token list of `chunks:` / `cycle:`: the answers in order, and whether `E` occurs -/
+def parseToks (body : String) : Option (Array Answer × Bool) :=
+  if body = "" then some (#[], false)
+  else
+    (body.splitOn ",").foldl (init := some (#[], false)) fun acc tok =>
+      match acc, parseTok tok with
+      | some (as, e), some (.inl (k, a)) => some (pushN as a k, e)
+      | some (as, _), some (.inr ()) => some (as, true)
+      | _, _ => none
+
+def repeatAnswers (acc : Array Answer) (as : Array Answer) : Nat → Array Answer
+  | 0 => acc
+  | k + 1 => repeatAnswers (acc ++ as) as k
 
 def parseReader (spec : String) (src : List UInt8) : Option Reader :=
   let rep (a : Answer) : Reader := { rest := src, script := List.replicate (src.length + 2) a }
@@ -56,14 +144,10 @@ def parseReader (spec : String) (src : List UInt8) : Option Reader :=
   else if spec = "one" then some (rep { cap := 1 })
   else if spec = "half" then some (rep { half := true, cap := 0 })
   else if spec.startsWith "chunks:" then
-    let body := (spec.drop 7).toString
-    if body = "" then some { rest := src }
-    else
-      (body.splitOn ",").foldl (init := some { rest := src }) fun acc tok =>
-        match acc, parseTok tok with
-        | some r, some (.inl a) => some { r with script := r.script ++ [a] }
-        | some r, some (.inr ()) => some { r with tailEof := true }
-        | _, _ => none
+    (parseToks (spec.drop 7).toString).map fun (as, e) => { rest := src, script := as.toList, tailEof := e }
+  else if spec.startsWith "cycle:" then
+    (parseToks (spec.drop 6).toString).map fun (as, e) =>
+      { rest := src, script := (repeatAnswers #[] as (src.length + 2)).toList, tailEof := e }
   else none
 
 def showErr : Option ErrKind → String
@@ -75,21 +159,29 @@ def showPos (p : Pos) : String := s!"{p.offset} {p.line} {p.column}"
 
 def showInts (l : List Int) : String := "[" ++ " ".intercalate (l.map toString) ++ "]"
 
-def dump (i : Input) : String :=
-  s!"buf=x{showHex i.buff.toList} lb={i.lexemeBegin} fw={i.forward} ahead={if i.ahead then 1 else 0} " ++
+/-- a stack in `dump=sum`: its length and the hash of its values, bottom first (an `int` as its 64-bit pattern) -/
+def sumInts (l : List Int) : String :=
+  s!"n{l.length}:h{hex64 (l.reverse.foldl (fun h v => fnvNat h (v.emod 18446744073709551616).toNat) fnvInit)}"
+
+def dump (sum : Bool) (i : Input) : String :=
+  (if sum then s!"buf=h{hex64 (fnvArray i.buff)}" else s!"buf=x{showHex i.buff.toList}") ++
+  s!" lb={i.lexemeBegin} fw={i.forward} ahead={if i.ahead then 1 else 0} " ++
   s!"err={showErr i.err} off={i.offset} line={i.line} col={i.column} ncol={i.nextColumn} " ++
-  s!"rs={showNatList i.runeSizes.reverse} lc={showInts i.lastColumns.reverse}"
+  (if sum then s!"rs={sumInts (i.runeSizes.map Int.ofNat)} lc={sumInts i.lastColumns}"
+   else s!"rs={showNatList i.runeSizes.reverse} lc={showInts i.lastColumns.reverse}")
 
 def quoted (s : String) : String := "\"" ++ s ++ "\""
 
 /-- `file`: the filename the `Input` was made with -/
-def showOut (file : String) : Out → String
+def showOut (sum : Bool) (file : String) : Out → String
   | .rune r => s!"ok r {r}"
   | .err .eof => "ok err eof"
   | .err .other => "ok err other"
   | .invalid p => s!"ok err utf8 {showPos p} {quoted (p.invalidError file).Error}"
   | .unit => "ok"
-  | .lexeme bytes p => s!"ok x{showHex bytes} {showPos p} {quoted (p.at file).String}"
+  | .lexeme bytes p =>
+    (if sum then s!"ok l{bytes.length}:h{hex64 (fnvList bytes)}" else s!"ok x{showHex bytes}") ++
+    s!" {showPos p} {quoted (p.at file).String}"
   | .skipped p => s!"ok {showPos p} {quoted (p.at file).String}"
 
 /-- `x<hex>` → the string with these UTF-8 bytes -/
@@ -138,16 +230,28 @@ inductive St where
   | closed
   | dead
 
-def step (file : String) (n : Nat) (st : St) (line : String) : St × String :=
+/-- `nexts k`: `Next` until `k` runes have come back or something else has; the number of runes, the hash of
+their code points, the result that ended the batch -/
+def runNexts : (k : Nat) → XInput → (count : Nat) → (h : UInt64) → Outcome (XInput × Nat × UInt64 × Option Out)
+  | 0, i, c, h => .ok (i, c, h, none)
+  | k + 1, i, c, h =>
+    match i.step .next with
+    | .ok (i', .rune r) => runNexts k i' (c + 1) (fnvNat h r)
+    | .ok (i', o) => .ok (i', c, h, some o)
+    | .panic => .panic
+    | .diverge => .diverge
+
+def step (sum : Bool) (file : String) (n : Nat) (r0 : Reader) (st : St) (line : String) : St × String :=
   match st, valueOp (words line) with
   | .dead, _ => (.dead, "skip")
   | st, some out => (st, out)
   | st, none =>
   match st, words line with
   | .dead, _ => (.dead, "skip")
+  | _, ["reset"] => (.fresh r0, "ok reset")
   | .fresh r, ["new"] =>
     match XInput.new file r n with
-    | .ok (.ok i) => (.live i, "ok | " ++ dump i.inp)
+    | .ok (.ok i) => (.live i, "ok | " ++ dump sum i.inp)
     | .ok (.error .eof) => (.closed, "ok err eof")
     | .ok (.error .other) => (.closed, "ok err other")
     | .panic => (.dead, "panic")
@@ -161,29 +265,43 @@ def step (file : String) (n : Nat) (st : St) (line : String) : St × String :=
     | none => (st, "bad-op")
     | some op =>
       match i.step op with
-      | .ok (i, o) => (.live i, showOut i.filename o ++ " | " ++ dump i.inp)
+      | .ok (i, o) => (.live i, showOut sum i.filename o ++ " | " ++ dump sum i.inp)
+      | .panic => (.dead, "panic")
+      | .diverge => (.dead, "hang")
+  | .live i, ["nexts", kw] =>
+    match kw.toNat? with
+    | none => (st, "bad-op")
+    | some k =>
+      match runNexts k i 0 fnvInit with
+      | .ok (i, c, h, last) =>
+        let l := match last with
+          | some o => showOut sum i.filename o
+          | none => "-"
+        (.live i, s!"ok nexts {c} h{hex64 h} then {l} | " ++ dump sum i.inp)
       | .panic => (.dead, "panic")
       | .diverge => (.dead, "hang")
   | st, _ => (st, "bad-op")
 
-def runOps (file : String) (n : Nat) : St → List String → List String
-  | _, [] => []
-  | st, l :: ls => let (st', out) := step file n st l; out :: runOps file n st' ls
+def runOpsAcc (sum : Bool) (file : String) (n : Nat) (r0 : Reader) : St → List String → Array String → Array String
+  | _, [], acc => acc
+  | st, l :: ls, acc => let (st', out) := step sum file n r0 st l; runOpsAcc sum file n r0 st' ls (acc.push out)
+
+def runOps (sum : Bool) (file : String) (n : Nat) (r0 : Reader) (ops : List String) : List String :=
+  (runOpsAcc sum file n r0 (.fresh r0) ops #[]).toList
 
 def runCase (hdr : List String) (ops : List String) : List String :=
   let n := headerNat hdr "n" 0
-  let src := ((headerGet hdr "src").getD "x").toList
-  match src with
-  | 'x' :: hex =>
-    match parseHex hex with
-    | some bytes =>
-      match parseReader ((headerGet hdr "reader").getD "full") bytes with
-      | some r =>
-        match parseStr ((headerGet hdr "file").getD "x") with
-        | some file => if n < 1 then ops.map fun _ => "bad-case" else runOps file n (.fresh r) ops
-        | none => ops.map fun _ => "bad-case"
+  let sum := headerGet hdr "dump" == some "sum"
+  let wild := headerGet hdr "comp" == some "wild"
+  match parseSrc ((headerGet hdr "src").getD "x") with
+  | some bytes =>
+    match parseReader ((headerGet hdr "reader").getD "full") bytes with
+    | some r =>
+      match parseStr ((headerGet hdr "file").getD "x") with
+      | some file =>
+        if n < 1 ∧ !wild then ops.map fun _ => "bad-case" else runOps sum file n r ops
       | none => ops.map fun _ => "bad-case"
     | none => ops.map fun _ => "bad-case"
-  | _ => ops.map fun _ => "bad-case"
+  | none => ops.map fun _ => "bad-case"
 
 end AlgoVerif.C19.Driver
